@@ -18,7 +18,7 @@ import (
 func hazardLits() []byte {
 	var b []byte
 	for c := byte(33); c < 127; c++ {
-		if c != '\\' && c != '\'' {
+		if c != '\\' {
 			b = append(b, c)
 		}
 	}
